@@ -33,19 +33,24 @@ composite, or whatever `connect` / the receiver setter raise during `__setstate_
 inductive Err | runtime | type | recursion | conn | value | copy | readiness | serial
   deriving DecidableEq, Repr, Inhabited
 
-/-- behaviour switches of `__getstate__` / `__setstate__` (the same two as in C07's model):
+/-- behaviour switches of `__setstate__` (cf. C07's model):
 `revIter` — `_restore_connections_from_strings` reconnects in REVERSE stored order, so that the
-prepending `connect` rebuilds every input's list as it was (pinned tree: stored order, i.e. every
+prepending `connect` rebuilds every input's list as it was (current tree: stored order, i.e. every
 input with several connections comes back with its priority reversed — KF-C07-1);
-`pushLinks` — value links are re-forged through the `value_receiver` setter, which pushes the
-sender's value through the receiver's setter (pinned tree); otherwise by plain assignment -/
+`pushIn` / `pushOut` — the macro's input / output value links are re-forged through the
+`value_receiver` setter, which pushes the sender's value through the receiver's setter; otherwise
+by plain assignment of `_value_receiver` (current tree since fix 60885c9: inputs plain, outputs
+pushed) -/
 structure Cfg where
-  revIter   : Bool
-  pushLinks : Bool
+  revIter : Bool
+  pushIn  : Bool
+  pushOut : Bool
   deriving DecidableEq, Repr
 
-def Cfg.pinned : Cfg := ⟨false, true⟩
-def Cfg.repaired : Cfg := ⟨true, false⟩
+/-- the tree as it is now -/
+def Cfg.pinned : Cfg := ⟨false, false, true⟩
+/-- connections restored in reverse stored order, links by plain assignment -/
+def Cfg.repaired : Cfg := ⟨true, false, false⟩
 
 structure Params where
   admits : Nat → Val → Bool
@@ -203,25 +208,36 @@ def failCopy (P : Params) (fuel : Nat) (s : S) (old : List (Nat × Val)) : S × 
   | (s', none) => (s', some .copy)
   | (s', some e) => (s', some e)
 
-/-- pairs = (this object's channel with the same label, if any; other's channel), panel order -/
+/-- pairs = (this object's channel with the same label, if any; other's channel), panel order;
+also returns the list of (channel, previous value) of what was copied (for the caller's undo) -/
 def copyPanel (P : Params) (fuel : Nat) (failHard : Bool) (s : S) :
-    List (Option Nat × Nat) → List (Nat × Val) → S × Option Err
-  | [], _ => (s, none)
+    List (Option Nat × Nat) → List (Nat × Val) → (S × Option Err) × List (Nat × Val)
+  | [], old => ((s, none), old)
   | (my, o) :: ps, old =>
     if s.val o = .nd then copyPanel P fuel failHard s ps old
     else
       match my with
-      | none => if failHard then failCopy P fuel s old else copyPanel P fuel failHard s ps old
+      | none => if failHard then (failCopy P fuel s old, old) else copyPanel P fuel failHard s ps old
       | some m =>
         match setVal P fuel s m (s.val o) with
         | (s', none) => copyPanel P fuel failHard s' ps (old ++ [(m, s.val m)])
-        | (s', some _) => if failHard then failCopy P fuel s' old else copyPanel P fuel failHard s' ps old
+        | (s', some _) =>
+          if failHard then (failCopy P fuel s' old, old) else copyPanel P fuel failHard s' ps old
 
+/-- `_copy_values`: inputs, then outputs; an exception of the outputs panel (which has unwound
+itself) makes the caller unwind the inputs too (fix 803bad0); an exception of that second undo
+loop replaces the first one -/
 def copyValues (P : Params) (fuel : Nat) (failHard : Bool) (s : S)
     (pin pout : List (Option Nat × Nat)) : S × Option Err :=
   match copyPanel P fuel failHard s pin [] with
-  | (s', none) => copyPanel P fuel failHard s' pout []
-  | (s', some e) => (s', some e)
+  | ((s', none), oldIn) =>
+    match copyPanel P fuel failHard s' pout [] with
+    | ((s'', none), _) => (s'', none)
+    | ((s'', some e), _) =>
+      match undo P fuel s'' oldIn with
+      | (s3, none) => (s3, some e)
+      | (s3, some e') => (s3, some e')
+  | ((s', some e), _) => (s', some e)
 
 /-! ## readiness and `Node.run` (default flags, no executor, cache off / first run) -/
 
@@ -325,25 +341,25 @@ def restoreConns (P : Params) (st : S) (res : List (Nat × Nat)) : List (Nat × 
       | (st', some e) => (st', some e)
 
 /-- re-forging one value link -/
-def forge (P : Params) (fuel : Nat) (st : S) (a b : Nat) : S × Option Err :=
-  if P.cfg.pushLinks then link P fuel st a (some b)
+def forge (P : Params) (fuel : Nat) (push : Bool) (st : S) (a b : Nat) : S × Option Err :=
+  if push then link P fuel st a (some b)
   else if st.kind b ≠ st.kind a then (st, some .type)
   else ({ st with recv := updF st.recv a (some b) }, none)
 
 /-- the two loops of `Macro.__setstate__`; `must` = the state lists every channel of the panel
 (macro inputs), otherwise only those that have a receiver (child outputs) -/
-def restoreLinks (P : Params) (fuel : Nat) (must : Bool) (pre : S) (res : List (Nat × Nat)) (st : S) :
+def restoreLinks (P : Params) (fuel : Nat) (must push : Bool) (pre : S) (res : List (Nat × Nat)) (st : S) :
     List Nat → S × Option Err
   | [] => (st, none)
   | a :: r =>
     match pre.recv a with
-    | none => if must then (st, some .serial) else restoreLinks P fuel must pre res st r
+    | none => if must then (st, some .serial) else restoreLinks P fuel must push pre res st r
     | some b =>
       match res.lookup b with
       | none => (st, some .serial)
       | some b' =>
-        match forge P fuel st a b' with
-        | (st', none) => restoreLinks P fuel must pre res st' r
+        match forge P fuel push st a b' with
+        | (st', none) => restoreLinks P fuel must push pre res st' r
         | (st', some e) => (st', some e)
 
 def restoreComp (P : Params) (fuel : Nat) (pre st : S) (C : Comp) : S × Option Err :=
@@ -351,9 +367,9 @@ def restoreComp (P : Params) (fuel : Nat) (pre st : S) (C : Comp) : S × Option 
   match restoreConns P st C.resOut (if P.cfg.revIter then saved.reverse else saved) with
   | (st1, some e) => (st1, some e)
   | (st1, none) =>
-    match restoreLinks P fuel true pre C.resIn st1 C.mins with
+    match restoreLinks P fuel true P.cfg.pushIn pre C.resIn st1 C.mins with
     | (st2, some e) => (st2, some e)
-    | (st2, none) => restoreLinks P fuel false pre C.resMOut st2 C.couts
+    | (st2, none) => restoreLinks P fuel false P.cfg.pushOut pre C.resMOut st2 C.couts
 
 def restoreAll (P : Params) (fuel : Nat) (pre st : S) : List Comp → S × Option Err
   | [] => (st, none)
